@@ -95,6 +95,9 @@ def scan_forbidden():
     return bad
 
 
+THEOREM_NAMES = []
+
+
 def check_props(prop_files):
     """Re-compile the property files to capture Print Assumptions; count theorems."""
     obligations, discharged, assumptions, failures = 0, 0, [], []
@@ -104,8 +107,14 @@ def check_props(prop_files):
         names = re.findall(r"^\s*(?:Theorem|Corollary)\s+(\w+)", txt, flags=re.M)
         obligations += len(names)
         rc, out = sh("timeout 600 coqc -Q theories Clikit %s" % os.path.join("theories", pf), 700, cwd=COQ)
-        if rc == 0:
+        printed = set(re.findall(r"^Print Assumptions\s+(\w+)\.", txt, flags=re.M))
+        unprinted = [n for n in names if n not in printed]
+        if rc == 0 and unprinted:
+            # every property theorem must state what it depends on
+            failures.append({"file": pf, "theorems": unprinted, "where": "no Print Assumptions line", "output": ""})
+        elif rc == 0:
             discharged += len(names)
+            THEOREM_NAMES.extend(names)
             chunks = re.split(r"(?=Closed under the global context|Axioms:)", out)
             closed = out.count("Closed under the global context")
             ax = [c.strip() for c in chunks if c.startswith("Axioms:")]
@@ -549,7 +558,7 @@ def run_check(prop, mod, tier, seed, tmp, replay, t_start, log):
             "oracle_failures": len(fails),
             "known_finding_lines": known_lines,
             "distribution": gen_info.get("distribution", {}),
-            "theorems": gen_info.get("theorems", getattr(mod, "THEOREMS", [])),
+            "theorems": list(THEOREM_NAMES),
             "timing": {"impl_s": round(getattr(ev, "t_impl", 0), 2), "model_s": round(getattr(ev, "t_model", 0), 2)},
             "source_tree": SRC,
         },
